@@ -23,7 +23,7 @@ from ..core import Ctx, key_of
 from ..dep import data, full
 from ..model import AnchorMissing, dotted, norm, own_nodes
 from ..order import order_table
-from .common import ctl_only, facts_of, pattr_writes, returns
+from .common import ctl_only, facts_of, pattr_writes, returns, maybe_true
 
 META = {
     "level": "other",
@@ -278,7 +278,7 @@ def run(ctx: Ctx):
     ga = cfg_of(avail)
     oks = []
     for r in returns(avail):
-        if isinstance(r.value, ast.Constant) and r.value.value is True:
+        if maybe_true(r):
             cl = fa.holds(ga.node_of(r), lambda t, p: (not p) and t == "self.scoreboard is None")
             oks.append(cl is not None)
     ctx.ob("R10.1", f"{avail.qual}: a resource without slot table is never available", avail, bool(oks) and all(oks),
